@@ -525,6 +525,8 @@ impl<'a> Run<'a> {
             );
             return Err(Failed)
         }
+        #[cfg(routinator_verif)]
+        crate::verif::kill_point("store-ta-tmp-written");
         if let Err(err) = tmp_file.persist(&path) {
             error!(
                 "Failed to persist temporary file {} to {}: {}",
